@@ -433,6 +433,11 @@ def check_smchart_transition(state, op, how):
         fail("operation on an SM chart is neither carried out as documented nor refused with the chart unchanged",
              [[list(s), list(p)] for s, p in alts], [vals, list(got)])
         return fails, tuple(vals) if len(vals) == 6 else tuple(state)
+    # equality sees the six fields: a changed field makes the charts unequal
+    if tuple(chosen) != tuple(state):
+        old = smchart_from(state, how)
+        if (ch == old) or not (ch != old):
+            fail("SM charts with different fields compare equal", "not equal", "equal")
     # both views agree for every field
     for i, f in enumerate(FIELDS):
         a = getattr(ch, f.lower())
